@@ -608,6 +608,7 @@ func c05Run(c *Ctx) {
 					continue
 				}
 				c05Check(c, q, lines, c.Shard)
+				vrt.Forget()
 				if len(lines) == 2 && qi == 5 && format == "generickv" {
 					c.Sample(map[string]interface{}{"lines": lines, "cells(server,file,interval)": c05Cells, "query": q.text("o.csv", true), "partitions": "all 15 assignments of the 2 lines to the 4 cells"})
 				}
